@@ -143,7 +143,7 @@ func VerifC16_Sort() {
 // completion orders: Run returns, and when nothing failed every task ran.
 func VerifC16_Progress() {
 	vNativeReset()
-	s := newScenario(scenarioOpts{n: 3, maxRetries: 1, modes: true, outcomes: oErr})
+	s := newScenario(scenarioOpts{n: 3, maxRetries: 1, modes: true, outcomes: oErr, buffer: true})
 	s.build()
 	// work conservation: whenever the scheduler loop goes idle and nothing has
 	// failed, a task whose dependencies have all succeeded is running or done,
